@@ -103,6 +103,11 @@ def validate_pair(prop_id, a, b, tables, K, strings_list=(), nullable=(), label=
     sa, sb = sides
     r['slots'] = (len(sa.rel.slots), len(sb.rel.slots))
     r['same_sql'] = sa.sql == sb.sql
+    if max(r['slots']) > 200:
+      # the multiset comparison is quadratic in the slot count: retried on a smaller database
+      r['status'] = 'not_encodable'
+      r['why'] = 'slot budget exceeded %r' % (r['slots'],)
+      return r
     if sa.rel.cols != sb.rel.cols and sorted(sa.rel.cols) == sorted(sb.rel.cols) \
         and len(set(sa.rel.cols)) == len(sa.rel.cols) and not ordered:
       # same named columns in another order (e.g. the rules of a predicate were permuted and
